@@ -31,6 +31,8 @@ THEOREMS = [
     "Dfols.C13.trsbox_geometry_not_worse",
     "Dfols.C13.sqrtSpec_real",
     "Dfols.C13.trsbox_geometry_real",
+    "Dfols.C13.convex_step_norm_le",
+    "Dfols.C13.ctrsbox_geometry_norm_le",
     "Dfols.C13.convex_step_in_ball",
     "Dfols.C13.ctrsbox_geometry_in_ball",
     "Dfols.C13.zero_step_rule",
@@ -43,13 +45,18 @@ TRUSTED_EXTRA = [
     "C13 is PARTIAL: proved (exact arithmetic, ordered field with a square root) = trsbox_linear/trsbox_geometry in the "
     "ZERO_THRESH-widened box and the ball, never worse than not moving; zero-step rule for every NaN pattern; "
     "NOT proved = global optimality of the geometry step (stated in Properties/C13.lean; tested against the bisection oracle)",
-    "convex solvers: ||d|| <= Delta is proved against the hypothesis LastBall (Dykstra with the ball last returns a point of the ball), "
-    "discharged by Proofs/Dykstra.lean ball_last (other work package); the loops around the projection are modelled only as "
-    "'the result is the last projection or the zero vector'",
+    "convex solvers: ||d|| <= Delta is proved in exact arithmetic from Proofs/Dykstra.lean ball_last (dykstra.max_iters >= 1, Delta > 0); "
+    "the loops around the projection are modelled only as 'the result is the last projection or the zero vector' (Kernels/ConvexStep.lean), "
+    "user projections are arbitrary functions",
     "exact-arithmetic theorems say nothing about rounding: the float gap is watched by the correspondence (1e-7 relative) and the search",
     "Controller used in the search/correspondence is a real dfols Controller whose model_const/model_jac are set directly to random data",
     "search oracle for global optimality: bisection on t for clip(-t g) (plain NumPy)",
 ]
+
+EXPLANATION = ("Theorems: exact-arithmetic box/ball/never-worse for trsbox_linear and trsbox_geometry (polymorphic kernel, same definition runs on Float), "
+               "ball clause of the convex solvers against LastBall, NaN-aware zero-step rule. Correspondence: kernel vs NumPy (comparator, n=1 bit-exact) "
+               "and trust_region_step decision logic on a real Controller. Search: bisection oracle for global optimality, norms of ctrsbox_pgd / "
+               "ctrsbox_sfista / ctrsbox_geometry on random convex sets, predicted reduction of Controller.trust_region_step with a regulariser.")
 
 ZT = 1e-14
 
@@ -516,8 +523,9 @@ def search_tr_step(ctx):
         rng = np.random.default_rng([ctx.seed, 1303, i])
         with_proj = bool(rng.random() < 0.5)
         bad = [None] * 8 + ["nan", "inf"]
-        control, params, info = make_controller(rng, True, with_proj, bad=bad[int(rng.integers(10))])
-        ctx.seen(("c13trstep", i, with_proj, info["n"], info["m"]))
+        hmode = "nan" if rng.random() < 0.06 else "l1"      # a regulariser returning NaN: can a NaN prediction keep a non-zero step?
+        control, params, info = make_controller(rng, True, with_proj, bad=bad[int(rng.integers(10))], hmode=hmode)
+        ctx.seen(("c13trstep", i, with_proj, info["n"], info["m"], hmode))
         try:
             d, gopt, H, gnew, crvmin = core.with_alarm(30, lambda: control.trust_region_step(params))
         except core.Alarm:
@@ -530,6 +538,9 @@ def search_tr_step(ctx):
         pr = float(pred_reduction_of(control, gopt, H, d))
         if pr != pr:
             st["nan_pred_reduction"] += 1
+            if np.any(d != 0.0):
+                st["nan_pred_reduction_nonzero_step_kept"] = st.get("nan_pred_reduction_nonzero_step_kept", 0) + 1
+                st.setdefault("nan_kept_when", set()).add("h returns NaN" if hmode == "nan" else "finite h")
         elif pr < 0.0:
             fail_once(ctx, "C13:trust_region_step-negative-predicted-reduction",
                       "regularised step returned with predicted reduction %.6g < 0" % pr,
@@ -540,6 +551,11 @@ def search_tr_step(ctx):
                 st["zero_step_returned"] += 1
             else:
                 st["positive"] += 1
+    if "nan_kept_when" in st:
+        st["nan_kept_when"] = sorted(st["nan_kept_when"])
+    if st["raised"].get("LinAlgError"):
+        ctx.notes.append("side finding (C08/C07, not a C13 clause): controller.py:513 np.linalg.norm(H, 2) raised LinAlgError on a non-finite H in %d "
+                         "trust_region_step calls, before the NaN guards at :519/:531 are reached" % st["raised"]["LinAlgError"])
     ctx.cov["search_trust_region_step"] = st
 
 
